@@ -601,7 +601,10 @@ static void
 evhttp_make_header_response(struct evhttp_connection *evcon,
     struct evhttp_request *req)
 {
-	int is_keepalive = evhttp_is_connection_keepalive(req->input_headers);
+	/* the application (or evhttp_send_reply_start()) may have decided
+	 * that this connection ends with the response */
+	int is_keepalive = evhttp_is_connection_keepalive(req->input_headers) &&
+	    !evhttp_is_connection_close(req->flags, req->output_headers);
 	int need_body = evhttp_response_needs_body(req);
 
 	evbuffer_add_printf(bufferevent_get_output(evcon->bufev),
@@ -3246,6 +3249,16 @@ evhttp_send_reply_start(struct evhttp_request *req, int code,
 		req->chunked = 1;
 	} else {
 		req->chunked = 0;
+		if (evhttp_find_header(req->output_headers, "Content-Length") == NULL &&
+		    evhttp_response_needs_body(req)) {
+			/* A body of unknown length for a peer that does not
+			 * understand chunks (HTTP/1.0, keep-alive or not):
+			 * it ends where the connection ends.  Announcing
+			 * "Content-Length: 0" and a kept-alive connection
+			 * would turn the body into the next response. */
+			evhttp_remove_header(req->output_headers, "Connection");
+			evhttp_add_header(req->output_headers, "Connection", "close");
+		}
 	}
 	evhttp_make_header(req->evcon, req);
 	evhttp_write_buffer(req->evcon, NULL, NULL);
